@@ -661,7 +661,7 @@ def gen_wrappers(srcs):
     """(file, fn#occurrence, [every called name, in textual order]) for every function with a body in lib.rs and traits.rs:
     the delegation structure of the public API and the trait impls (which wrapper calls which core function)"""
     items = []
-    for key in ('lib', 'traits'):
+    for key in ('lib', 'traits', 'serde', 'arbitrary'):
         src = strip_cfg_verif(srcs[key])
         seen = {}
         for m in re.finditer(r'\bfn\s+([A-Za-z_][A-Za-z0-9_]*)', src):
@@ -697,7 +697,8 @@ def main():
     try:
         raw = {'repr': rd('src/repr.rs'), 'heap': rd('src/repr/heap_buffer.rs'), 'inline': rd('src/repr/inline_buffer.rs'),
                'static': rd('src/repr/static_buffer.rs'), 'last': rd('src/repr/last_byte.rs'), 'num': rd('src/repr/num_to_repr.rs'),
-               'lib': rd('src/lib.rs'), 'traits': rd('src/traits.rs')}
+               'lib': rd('src/lib.rs'), 'traits': rd('src/traits.rs'),
+               'serde': rd('src/features/serde.rs'), 'arbitrary': rd('src/features/arbitrary.rs')}
         srcs = {k: strip_comments(v) for k, v in raw.items()}
         lb, consts = gen_last_byte(raw['last'])
         consts.update({'MAX_INLINE_SIZE': 'MAX_INLINE_SIZE', 'MAX_LEN': 'MAX_LEN', 'Self::MAX_LENGTH': 'STATIC_MAX_LENGTH'})
